@@ -801,7 +801,9 @@ func mutateCase(t failer, check string, ch chooser) {
 		return
 	}
 	class, nontrivial, violation := evalMutation(w, target, mut)
-	evid.Case("mutation:"+kind+":"+class, nontrivial, hex.EncodeToString(issuer.Digest("sha256", mut))+spec.Name+target, nil)
+	evid.CaseFn("mutation:"+kind+":"+class, nontrivial, hex.EncodeToString(issuer.Digest("sha256", mut))+spec.Name+target, func() any {
+		return map[string]any{"world": spec.Name, "target": target, "operator": op, "original_len": len(orig), "mutated": evid.Hex(mut), "verdict_class": class}
+	})
 	evid.Count("mutation-op:"+op, 1)
 	evid.Count("mutation-world:"+spec.Name, 1)
 	if violation != "" {
